@@ -1,7 +1,11 @@
 """C18 - Materialization is pure and deterministic across calls, histories and hash seeds.
 
-A case is a *history*: 2-3 data frames and up to 12 operations over two shared formulas
-(`center(x) + C(a)` and the structured `y ~ scale(z) + center(x):C(a) + I(center(x) * z)`):
+A case is a *history*: 2-3 data frames, a context of mutable objects (a knots list K, a levels list L) and up
+to 12 operations over four shared formulas: `center(x) + C(a)`, the structured
+`y ~ scale(z) + center(x):C(a) + I(center(x) * z)`, `center(`my col`) + scale(`my col`) + I(`my col` * x)`
+(a non-identifier column name back-quoted inside several stateful Python factors) and
+`bs(x, knots=K, extrapolation='clip') + C(a, levels=L) + poly(z, degree=2)` (transforms that take mutable objects
+from the caller's context); every operation gets the same context objects:
   new     ModelSpec(formula=F, ...) / ModelSpec.from_spec(F, ...)        (un-materialised spec)
   update  spec.update(ensure_full_rank= / na_action= / structure=None / formula=)
   subset  spec.subset(terms)
@@ -20,9 +24,11 @@ evaluations of the real transforms and forwarded in the request.  In addition ev
 record the model produces (for the history and for the value semantics) must determine the real
 output: equal records with different real matrices are a disagreement.
 
-Oracle (implementation only): (1) every call's output equals the output of the same call on fresh
-objects (fresh formulas, fresh frames, the spec re-derived through its own ancestry only);
-(2) frames (hash of values, dtypes, labels) and the shared formulas' terms are unchanged by every
+Oracle (implementation only): (1) every call's output -- the matrices AND the keys/values of the
+transform_state / encoder_state of the specs that come with them -- equals the output of the same call
+on fresh objects (fresh formulas, frames and context objects, the spec re-derived through its own
+ancestry only); (2) frames (hash of values, dtypes, labels), the shared formulas' terms, the context
+objects (type and contents) and the state of numpy's global random stream are unchanged by every
 operation; (3) the replay output of previously obtained specs (on deep copies) is unchanged by every
 operation; (4) the canonical outputs of the whole history (values, column order, kept rows) are
 byte-identical in subprocesses with PYTHONHASHSEED in {0,1,2,3} (thorough: 16 seeds).
@@ -72,18 +78,30 @@ ASSUMPTIONS = [
     "ValueError for nulls under na_action='raise') depends on the iteration order of the factor set, i.e. on the hash seed "
     "(observed); the property text does not cover the exception class, both are one observable 'EvaluationError' here",
     "encoders do not raise",
+    "the null rows of an evaluated factor do not depend on the fitted state it is evaluated with (the generator keeps "
+    "poly/bs away from degenerate data where a fresh fit gives NaN but a reused one does not)",
 ]
 RULE = (
-    "random histories (<= 12 ops) over 2 shared formulas (center/scale/C(), one structured), 2-3 frames (nulls in a/y, "
-    "third frame may lack z), interleaving new/update/subset/build/call via every entry point incl. joint ModelSpecs calls "
+    "random histories (<= 12 ops) over 2-3 of 4 shared formulas (center/scale/C(), one structured, one with a back-quoted "
+    "non-identifier column in several stateful factors, one with bs/C/poly taking lists from the caller's context), 2-3 "
+    "frames (nulls in a/y, third frame may lack z), three fixed witnesses (D16, back-quote, context) first; interleaving new/update/subset/build/call via every entry point incl. joint ModelSpecs calls "
     "and attribute overrides; malformed stream: formula swaps that keep a structure (KeyError), subsets of un-materialised "
     "specs / unknown terms, inconsistent joint specs, na_action='raise' with nulls, missing columns; "
     "non-trivial = some spec is materialised at least twice on different frames or reused after an update; distinct by canonical JSON"
 )
 
 ROOT = Path(__file__).resolve().parent.parent.parent
-FSTR = {"F1": "center(x) + C(a)", "F2": "y ~ scale(z) + center(x):C(a) + I(center(x) * z)"}
-SIMPLE = ["F1", "F2l", "F2r"]
+FSTR = {
+    "F1": "center(x) + C(a)",
+    "F2": "y ~ scale(z) + center(x):C(a) + I(center(x) * z)",
+    # a column whose name is not an identifier, back-quoted inside several Python factors (two of them stateful):
+    # every factor must sanitise the name in its OWN scratch layer of the evaluation environment
+    "F3": "center(`my col`) + scale(`my col`) + I(`my col` * x)",
+    # transforms that take mutable objects (lists) from the caller's context
+    "F4": "bs(x, knots=K, extrapolation='clip') + C(a, levels=L) + poly(z, degree=2)",
+}
+SIMPLE = ["F1", "F2l", "F2r", "F3", "F4"]
+CTX = {"K": [1.5, 3.5], "L": ["u", "v", "w", "z"]}
 LETTERS = ["u", "v", "w", "z"]
 MAX_PROBED = 8
 
@@ -112,7 +130,24 @@ def _formulas():
 
     f1 = Formula(FSTR["F1"])
     f2 = Formula(FSTR["F2"])
-    return {"F1": f1, "F2": f2, "F2l": f2.lhs, "F2r": f2.rhs}
+    return {"F1": f1, "F2": f2, "F2l": f2.lhs, "F2r": f2.rhs, "F3": Formula(FSTR["F3"]), "F4": Formula(FSTR["F4"])}
+
+
+def _context(case):
+    """fresh context objects (the caller's scope): mutable lists referred to by name from the formulas"""
+    c = case.get("ctx") or CTX
+    return {"K": [float(t) for t in c["K"]], "L": [str(t) for t in c["L"]]}
+
+
+def _ctx_repr(ctx):
+    return repr(sorted((k, type(v).__name__, repr(list(v))) for k, v in ctx.items()))
+
+
+def _rng_state():
+    import numpy
+
+    st = numpy.random.get_state()
+    return _digest([st[0], [int(t) for t in st[1]], int(st[2]), int(st[3]), float(st[4])])
 
 
 def _terms(formula):
@@ -149,6 +184,14 @@ def _canon_matrix(mm):
     )
 
 
+def _canon_state(spec):
+    e = {}
+    for k, v in spec.encoder_state.items():
+        cats = v[1].get("categories") if isinstance(v[1], dict) else None
+        e[str(k)] = None if cats is None else [str(c) for c in cats]
+    return dict(t=sorted((str(k), _tok(v)) for k, v in spec.transform_state.items()), e=sorted(e.items()))
+
+
 def _parts_of(res):
     """list of ModelMatrix in part order"""
     from formulaic.utils.structured import Structured
@@ -179,6 +222,7 @@ class World:
     def __init__(self, case):
         self.frames = _frames(case)
         self.F = _formulas()
+        self.ctx = _context(case)  # shared by every operation of the history, like variables of the calling scope
         self.H = []  # spec handles, in the order they were handed out
         self.M = []  # the matrix a handle came with (or None)
         self.origin = []  # how each handle was obtained: (op index, part index)
@@ -251,13 +295,14 @@ class World:
             if k == "build":
                 f = self.F[op["f"]]
                 if op.get("via") == "formula":
-                    res = f.get_model_matrix(data, ensure_full_rank=op["efr"], na_action=op["na"])
+                    res = f.get_model_matrix(data, context=self.ctx, ensure_full_rank=op["efr"], na_action=op["na"])
                 else:
-                    res = model_matrix(f, data, ensure_full_rank=op["efr"], na_action=op["na"])
+                    res = model_matrix(f, data, context=self.ctx, ensure_full_rank=op["efr"], na_action=op["na"])
             else:
                 kw = _kwargs(op.get("u"))
                 hs = [self.H[h] for h in op["hs"]]
                 via = op.get("via", "spec")
+                kw["context"] = self.ctx
                 if len(hs) == 1 and via == "spec":
                     res = hs[0].get_model_matrix(data, **kw)
                 elif len(hs) == 1 and via == "matrix":
@@ -272,7 +317,8 @@ class World:
                         res = model_matrix(joint, data, **kw)
             mats = _parts_of(res)
             self._publish([m.model_spec for m in mats], mats, i)
-            canon = [_canon_matrix(m) for m in mats]
+            # the result of a call = the matrix AND the spec that comes with it (keys and values of its fitted state)
+            canon = [dict(_canon_matrix(m), state=_canon_state(m.model_spec)) for m in mats]
             parts = [
                 dict(
                     kept=[int(t) for t in m.index],
@@ -332,6 +378,15 @@ def _digest(x):
     return hashlib.sha256(json.dumps(x, sort_keys=True).encode()).hexdigest()[:16]
 
 
+def _mdigest(canon):
+    """digest of the matrices alone (without the state of the specs that come with them)"""
+    if canon is None:
+        return None
+    if isinstance(canon, dict):
+        return _digest(canon)
+    return _digest([{k: v for k, v in c.items() if k != "state"} for c in canon])
+
+
 def _frame_hash(df):
     import pandas
 
@@ -347,17 +402,21 @@ def _formula_repr(F):
             for k, v in F.items() if k != "F2"}
 
 
-def _probe(spec, frame):
-    """replay behaviour of a spec, observed on a deep copy (so that observing cannot disturb)"""
+def _probe(spec, frame, ctx):
+    """replay behaviour of a spec, observed on deep copies (so that observing cannot disturb)"""
     try:
-        return _digest([_canon_matrix(m) for m in _parts_of(copy.deepcopy(spec).get_model_matrix(frame.copy()))])
+        return _digest([_canon_matrix(m) for m in _parts_of(
+            copy.deepcopy(spec).get_model_matrix(frame.copy(), context=copy.deepcopy(ctx)))])
     except Exception as e:
         return "err:" + type(e).__name__
 
 
 def run_history(case, light=False):
     """Run the history on the real code.  light=True: outputs only (used in the hash-seed batches)."""
+    import numpy
+
     warnings.simplefilter("ignore")
+    numpy.random.seed(180018)  # the global stream is an observable: no operation may consume it
     w = World(case)
     rec = []
     probes = {}
@@ -369,8 +428,10 @@ def run_history(case, light=False):
         if not light:
             fh = [_frame_hash(f) for f in w.frames]
             fr = _formula_repr(w.F)
+            cx = _ctx_repr(w.ctx)
+            rs = _rng_state()
         out, canon = w.execute(op, len(rec))
-        entry = dict(op=op, out=out, digest=None if canon is None else _digest(canon))
+        entry = dict(op=op, out=out, digest=None if canon is None else _digest(canon), mdigest=_mdigest(canon))
         if out.get("err") == "FactorEncodingError":
             entry["parts_done"] = w.parts_done
         if not light:
@@ -379,18 +440,22 @@ def run_history(case, light=False):
                 bad.append("an input data frame was mutated")
             if fr != _formula_repr(w.F):
                 bad.append("a shared formula was mutated")
+            if cx != _ctx_repr(w.ctx):
+                bad.append(f"an object of the caller's context was mutated: {cx} -> {_ctx_repr(w.ctx)}")
+            if rs != _rng_state():
+                bad.append("the operation consumed numpy's global random stream")
             # replay behaviour of the specs obtained before this op, on a frame other than the op's
             pf = (op.get("d", i) + 1) % len(w.frames)
             idx = list(range(n_before))
             if len(idx) > MAX_PROBED:
                 idx = idx[: MAX_PROBED // 2] + idx[-MAX_PROBED // 2:]
             for h in idx:
-                p = _probe(w.H[h], w.frames[pf])
+                p = _probe(w.H[h], w.frames[pf], w.ctx)
                 if (h, pf) in probes and probes[(h, pf)] != p:
                     bad.append(f"replay of spec #{h} on frame {pf} changed ({probes[(h, pf)]} -> {p})")
                 probes[(h, pf)] = p
             for h in range(n_before, len(w.H)):
-                probes[(h, pf)] = _probe(w.H[h], w.frames[pf])
+                probes[(h, pf)] = _probe(w.H[h], w.frames[pf], w.ctx)
             entry["bad"] = bad
             entry["specs"] = w.summary()
         rec.append(entry)
@@ -432,7 +497,7 @@ def fresh_output(case, rec, i):
     def run(j):
         op = dict(ops[j])
         fresh = World.__new__(World)
-        fresh.frames, fresh.F, fresh.H, fresh.M, fresh.origin = w.frames, w.F, [], [], []
+        fresh.frames, fresh.F, fresh.ctx, fresh.H, fresh.M, fresh.origin = w.frames, w.F, w.ctx, [], [], []
         if op["k"] in ("update", "subset"):
             s, m = spec_of(op["h"])
             fresh.H, fresh.M = [s], [m]
@@ -450,14 +515,25 @@ def fresh_output(case, rec, i):
         return out, canon, list(zip(fresh.H[n0:], fresh.M[n0:]))
 
     out, canon, _ = run(i)
-    return None if canon is None else _digest(canon)
+    return (None, None) if canon is None else (_digest(canon), _mdigest(canon))
 
 
 # ----------------------------------------------------------------------------- parameters of the model
 
 
-def model_params(case):
+def _used_formulas(case):
+    names = []
+    for op in case["ops"]:
+        for n in (op.get("f"), (op.get("u") or {}).get("formula")):
+            for m in (["F2l", "F2r"] if n == "F2" else [n]):
+                if m is not None and m not in names:
+                    names.append(m)
+    return names
+
+
+def model_params(case, handles=()):
     """fresh isolated evaluations of the real transforms: the numeric parameters of the model"""
+    from formulaic import ModelSpec, model_matrix
     from formulaic.transforms import TRANSFORMS
     from formulaic.utils.layered_mapping import LayeredMapping
     from formulaic.utils.null_handling import find_nulls
@@ -465,21 +541,23 @@ def model_params(case):
 
     warnings.simplefilter("ignore")
     F = _formulas()
-    factors = []
-    for k in SIMPLE:
-        for t in _terms(F[k]):
-            for f in t:
-                if f not in factors:
-                    factors.append(f)
+    used = _used_formulas(case)
+    factors, method = [], {}
+    for k in used:
+        for t in F[k]:
+            for fa in t.factors:
+                if fa.eval_method.value != "literal" and fa.expr not in factors:
+                    factors.append(fa.expr)
+                    method[fa.expr] = fa.eval_method.value
     frames = _frames(case)
     nodes = {f: [] for f in factors}
-    fit, fails, nulls, levels = {}, {f: {} for f in factors}, {f: {} for f in factors}, {}
+    fit, fails, nulls, levels, fixedenc = {}, {f: {} for f in factors}, {f: {} for f in factors}, {}, {}
     for d, df in enumerate(frames):
         for f in factors:
             st = {}
-            env = LayeredMapping({c: df[c].copy() for c in df.columns}, TRANSFORMS)
+            env = LayeredMapping({c: df[c].copy() for c in df.columns}, _context(case), TRANSFORMS)
             try:
-                val = stateful_eval(f, env, None, st, None)
+                val = env[f] if method[f] == "lookup" else stateful_eval(f, env, None, st, None)
                 bad = False
             except Exception:
                 val, bad = None, True
@@ -499,17 +577,35 @@ def model_params(case):
                 levels.setdefault(f, {})[str(d)] = [
                     None if (t is None or t != t) else LETTERS.index(t) for t in list(raw)
                 ]
-    # rank reduction as a parameter: the scoped factors of every term of every formula, per frame
-    from formulaic import model_matrix
-
+                if meta.encoder is not None and f not in fixedenc:
+                    # levels that do not come from the data (C(a, levels=L)): still there when every row is dropped
+                    try:
+                        est = {}
+                        meta.encoder(val, reduced_rank=False, drop_rows=list(range(len(df))), encoder_state=est,
+                                     model_spec=ModelSpec(formula=[], output="pandas"))
+                        if est.get("categories"):
+                            fixedenc[f] = [LETTERS.index(c) for c in est["categories"]]
+                    except Exception:
+                        pass
+    # rank reduction as a parameter: the scoped factors of every term of every formula that a spec of the history
+    # carries (the shared formulas, and restrictions of them made by subset()), per frame
+    F = dict(F)
+    seen = {json.dumps(_terms(F[k])) for k in used}
+    for s_ in handles:
+        key = json.dumps(_terms(s_.formula))
+        if key not in seen:
+            seen.add(key)
+            F[key] = s_.formula
+            used = used + [key]
     scoped = []
     for d, df in enumerate(frames):
-        for k in SIMPLE:
+        for k in used:
             for efr in (True, False):
                 st = None
                 for na in ("drop", "ignore"):
                     try:
-                        st = model_matrix(F[k], df.copy(), ensure_full_rank=efr, na_action=na).model_spec.structure
+                        st = model_matrix(F[k], df.copy(), context=_context(case), ensure_full_rank=efr,
+                                          na_action=na).model_spec.structure
                         break
                     except Exception:
                         continue
@@ -519,7 +615,7 @@ def model_params(case):
                         factors=[[sf.factor.expr, bool(sf.reduced)] for t in s.scoped_terms for sf in t.factors],
                     ))
     return dict(
-        nodes=nodes, fit=fit, fails=fails, nulls=nulls, levels=levels, scoped=scoped,
+        nodes=nodes, fit=fit, fails=fails, nulls=nulls, levels=levels, fixedenc=fixedenc, scoped=scoped,
         nrows={str(d): len(df) for d, df in enumerate(frames)},
     )
 
@@ -602,13 +698,17 @@ def _gen_frame(rng, drop_z):
     while True:
         x = [rng.randint(-4, 9) for _ in range(n)]
         z = [rng.randint(-3, 12) for _ in range(n)]
-        if len(set(x)) > 1 and len(set(z)) > 1:
+        if len(set(x)) > 1 and len(set(z)) > 2:  # poly(z, 2) needs three distinct values to be finite
             break
+    x[0], x[1] = -rng.randint(1, 4), rng.randint(5, 9)  # the range of x covers the context knots K
     a = [None if rng.random() < 0.12 else rng.choice(LETTERS) for _ in range(n)]
     if all(t is None for t in a):
         a[0] = "u"
     y = [None if rng.random() < 0.12 else rng.randint(-5, 5) for _ in range(n)]
-    fr = {"x": x, "z": z, "a": a, "y": y}
+    q = [rng.randint(1, 30) for _ in range(n)]
+    if len(set(q)) == 1:
+        q[0] += 1
+    fr = {"x": x, "z": z, "a": a, "y": y, "my col": q}
     if drop_z:
         del fr["z"]
     return fr
@@ -624,7 +724,7 @@ def _gen_cfg(rng, malformed):
     return dict(efr=rng.random() < 0.7, na=na)
 
 
-def _gen_upd(rng, malformed):
+def _gen_upd(rng, malformed, simple=SIMPLE):
     u = {}
     r = rng.random()
     if r < 0.3:
@@ -634,7 +734,7 @@ def _gen_upd(rng, malformed):
     elif r < 0.65:
         u["clear"] = True
     elif r < 0.85:
-        u["formula"] = rng.choice(SIMPLE)
+        u["formula"] = rng.choice(simple)
         if not (malformed and rng.random() < 0.6):
             u["clear"] = True
     else:
@@ -645,15 +745,19 @@ def _gen_upd(rng, malformed):
 
 def _gen_ops(rng, malformed, nmax):
     ops = []
+    # each history works with 2-3 of the four formulas
+    fams = rng.sample(["F1", "F2", "F3", "F4"], rng.choice([2, 2, 3]))
+    simple = [m for f in fams for m in (["F2l", "F2r"] if f == "F2" else [f])]
+    buildable = [m for f in fams for m in (["F2", "F2r"] if f == "F2" else [f])]
     n = rng.randint(3, nmax)
     for i in range(n):
         r = rng.random()
         if i == 0:
             r = rng.choice([0.05, 0.2])
         if r < 0.15:
-            ops.append(dict(k="new", f=rng.choice(SIMPLE), via=rng.choice(["ctor", "from_spec"]), **_gen_cfg(rng, malformed)))
+            ops.append(dict(k="new", f=rng.choice(simple), via=rng.choice(["ctor", "from_spec"]), **_gen_cfg(rng, malformed)))
         elif r < 0.33:
-            ops.append(dict(k="build", f=rng.choice(["F1", "F2", "F2r"]), via=rng.choice(["mm", "formula"]),
+            ops.append(dict(k="build", f=rng.choice(buildable), via=rng.choice(["mm", "formula"]),
                             d=rng.randint(0, 5), **_gen_cfg(rng, malformed)))
         elif r < 0.73:
             k = rng.choice([1, 1, 1, 1, 2, 2, 3])
@@ -669,7 +773,7 @@ def _gen_ops(rng, malformed, nmax):
                     u["na"] = rng.choice(["drop", "ignore", "raise"] if malformed else ["drop", "ignore"])
             ops.append(dict(k="call", hs=hs, via=rng.choice(["spec", "spec", "mm", "matrix"]), u=u, d=rng.randint(0, 5)))
         elif r < 0.88:
-            ops.append(dict(k="update", h=rng.randint(0, 40), u=_gen_upd(rng, malformed)))
+            ops.append(dict(k="update", h=rng.randint(0, 40), u=_gen_upd(rng, malformed, simple)))
         else:
             op = dict(k="subset", h=rng.randint(0, 40), pick=[rng.randint(0, 5) for _ in range(rng.randint(1, 3))])
             if malformed and rng.random() < 0.3:
@@ -682,7 +786,8 @@ def _gen_case(rng, seeds, nmax=12):
     malformed = rng.random() < 0.25
     nf = rng.choice([2, 3, 3])
     frames = [_gen_frame(rng, drop_z=(j == 2 and rng.random() < 0.5)) for j in range(nf)]
-    return dict(frames=frames, ops=_gen_ops(rng, malformed, nmax), seeds=seeds)
+    ctx = dict(K=sorted(rng.sample([0.5, 1.5, 2.5, 3.5, 4.5], 2)), L=list(LETTERS))
+    return dict(frames=frames, ctx=ctx, ops=_gen_ops(rng, malformed, nmax), seeds=seeds)
 
 
 D16_WITNESS = dict(
@@ -698,10 +803,37 @@ D16_WITNESS = dict(
 )
 
 
+_WFRAMES = [
+    {"x": [-2, 6, 1, 3, 4], "z": [1, 2, 4, 7, 9], "a": ["u", "v", "w", "u", "z"], "y": [1, 2, 3, 4, 5],
+     "my col": [1, 2, 4, 9, 11]},
+    {"x": [-1, 8, 2, 5], "z": [2, 3, 5, 9], "a": ["v", "w", "z", "z"], "y": [4, 3, 2, 1], "my col": [10, 20, 40, 45]},
+]
+# train / train again / predict with both fitted specs, back-quoted non-identifier column in several stateful factors
+BACKQUOTE_WITNESS = dict(
+    frames=_WFRAMES, ctx=CTX,
+    ops=[
+        dict(k="build", f="F3", via="mm", d=0, efr=True, na="drop"),
+        dict(k="build", f="F3", via="formula", d=0, efr=True, na="drop"),
+        dict(k="call", hs=[0], via="spec", u=None, d=1),
+        dict(k="call", hs=[1], via="mm", u=None, d=1),
+    ],
+)
+# the same build three times with mutable context objects (knots list, levels list), interleaved with a reuse
+CONTEXT_WITNESS = dict(
+    frames=_WFRAMES, ctx=CTX,
+    ops=[
+        dict(k="build", f="F4", via="mm", d=0, efr=True, na="drop"),
+        dict(k="build", f="F4", via="formula", d=0, efr=True, na="drop"),
+        dict(k="call", hs=[0], via="spec", u=None, d=1),
+        dict(k="build", f="F4", via="mm", d=0, efr=True, na="drop"),
+    ],
+)
+
+
 def cases(rng, tier):
     n = {"quick": 110, "thorough": 700, "search": 25}[tier]
     seeds = {"quick": [0, 1, 2, 3], "thorough": list(range(16)), "search": []}[tier]
-    out = [dict(D16_WITNESS, seeds=seeds)]
+    out = [dict(D16_WITNESS, seeds=seeds), dict(BACKQUOTE_WITNESS, seeds=seeds), dict(CONTEXT_WITNESS, seeds=seeds)]
     for _ in range(n):
         out.append(_gen_case(rng, seeds))
     if seeds:
@@ -725,8 +857,8 @@ def nontrivial(c):
 def impl(c):
     w, rec = run_history(c)
     for i, r in enumerate(rec):
-        r["fresh"] = fresh_output(c, rec, i) if r["op"]["k"] in ("build", "call") else None
-    return dict(ops=rec, params=model_params(c))
+        r["fresh"], r["fresh_m"] = fresh_output(c, rec, i) if r["op"]["k"] in ("build", "call") else (None, None)
+    return dict(ops=rec, params=model_params(c, w.H))
 
 
 def _model_op(op, F):
@@ -791,7 +923,7 @@ def agree(c, o, m):
                     return f"after op {i} {r['op']}: spec #{h} implementation {a} vs model {b}"
             return f"after op {i}: implementation has {len(r['specs'])} specs, model {len(hm['specs'])}"
         if r["op"]["k"] in ("build", "call"):
-            for what, rec_, dig in (("history", hm["out"], r["digest"]), ("fresh", pm, r["fresh"])):
+            for what, rec_, dig in (("history", hm["out"], r["mdigest"]), ("fresh", pm, r["fresh_m"])):
                 key = json.dumps(rec_, sort_keys=True)
                 if key in records and records[key][0] != dig:
                     return (f"op {i} ({what}) and op {records[key][1]} ({records[key][2]}) have the same model record "
@@ -804,11 +936,15 @@ def oracle(c, o):
     if "harness_exception" in o:
         return None
     for i, r in enumerate(o["ops"]):
+        msgs = []
         if r["op"]["k"] in ("build", "call") and r["digest"] != r["fresh"]:
-            return (f"op {i} {r['op']}: its output inside the history differs from the output of the same call on fresh "
-                    f"objects (history {r['out']}, digest {r['digest']} vs fresh {r['fresh']})")
-        if r.get("bad"):
-            return f"op {i} {r['op']}: " + "; ".join(r["bad"])
+            what = ("the matrices differ" if r.get("mdigest") != r.get("fresh_m")
+                    else "the matrices agree but the fitted state (transform_state / encoder_state keys or values) of the returned spec differs")
+            msgs.append(f"its output inside the history differs from the output of the same call on fresh objects: {what} "
+                        f"(history {r['out']}, digest {r['digest']} vs fresh {r['fresh']})")
+        msgs += r.get("bad") or []
+        if msgs:
+            return f"op {i} {r['op']}: " + "; ".join(msgs)
     mine = [r["digest"] for r in o["ops"]]
     for s, ds in sorted(seed_outputs(c).items()):
         if ds != mine:
